@@ -6,7 +6,7 @@ RULE = ("case = one script: body `new; [0-3 pending times-fakes, each satisfied 
         "its arguments, fake! called past its budget, signature mismatch (raw and fake!), null target, null fake, will_return_boolean on a "
         "non-bool function, async value of the wrong output type, typed target paired with an unchecked fake, every executable mmap failing, "
         "mprotect failing, user panic with a non-string payload, user panic raised by the returns: expression of a fake! and by the body of a closure "
-        "fake (inside the fake's frame), over-call panic caught by the test body with the scope then left normally, user panic while the OS refuses every munmap of the unwind, installation on a page-straddling function while the OS refuses to make its second page writable (whatever the granularity in which the library asks), signature mismatch on a function this injector has already faked (its earlier fake must stay in effect, bytes unchanged), user panic during which a destructor installs one more fake and calls the function, user panic with 80 more fakes live, one more installation while the platform refuses every mprotect to read+execute (works or refuses loudly), a panicking value expression of an async fake contained by the test body}, for 10 pending-expectation combinations; run on a worker thread under catch_unwind, hundreds of scripts per "
+        "fake (inside the fake's frame), over-call panic caught by the test body with the scope then left normally, user panic while the OS refuses every munmap of the unwind, installation on a page-straddling function while the OS refuses to make its second page writable (whatever the granularity in which the library asks), signature mismatch on a function this injector has already faked (its earlier fake must stay in effect, bytes unchanged), user panic during which a destructor installs one more fake and calls the function, user panic with 80 more fakes live, one more installation while the platform refuses every mprotect to read+execute (works or refuses loudly), a panicking value expression of an async fake contained by the test body, two contained over-budget calls followed by a user panic}, for 10 pending-expectation combinations; run on a worker thread under catch_unwind, hundreds of scripts per "
         "process. Oracle: the scripted body comes back within 30 s (bounded progress); process not aborted; at most one panic raised; panic class as expected for k; refused call made no "
         "mprotect/flush/executable-mmap before refusing and left its target untouched; every pool target's bytes and behaviour original; no "
         "trampoline left (except after an injected mprotect failure: noted); a fresh thread creates, uses and drops an injector and a "
